@@ -108,9 +108,6 @@ impl Block for ZeroCrossing {
                 }
                 opos += 1;
                 self.last_cross += self.clock;
-                if opos == max_out {
-                    break;
-                }
             }
 
             let sign = *sample > 0.0;
@@ -127,6 +124,10 @@ impl Block for ZeroCrossing {
             if self.counter > step_back && self.last_cross as u64 > step_back {
                 self.counter -= step_back;
                 self.last_cross -= step_back as f32;
+            }
+            // Only stop once the sample is fully accounted for.
+            if opos == max_out {
+                break;
             }
         }
         input.consume(n);
